@@ -148,26 +148,23 @@ pub fn run() {
                                 let (s, q, l, ok) = untag(&d);
                                 got.push((s, q, l, ok, now_ns()));
                             },
-                            Err(e) => {
-                                let io = std::io::Error::from(e);
-                                match io.raw_os_error() {
-                                    Some(c) if c == libc::EAGAIN || c == libc::EWOULDBLOCK => {
-                                        if now_ns() > deadline {
-                                            errors.push("poll deadline".to_string());
-                                            break;
-                                        }
-                                        std::thread::yield_now();
-                                        continue;
-                                    },
-                                    None if io.kind() == std::io::ErrorKind::ConnectionReset => {
-                                        closed = true;
+                            Err(e) => match classify_recv(e).as_str() {
+                                "Empty" => {
+                                    if now_ns() > deadline {
+                                        errors.push("poll deadline".to_string());
                                         break;
-                                    },
-                                    _ => {
-                                        errors.push(format!("{:?}", io));
-                                        break;
-                                    },
-                                }
+                                    }
+                                    std::thread::yield_now();
+                                    continue;
+                                },
+                                "Disconnected" => {
+                                    closed = true;
+                                    break;
+                                },
+                                other => {
+                                    errors.push(other.to_string());
+                                    break;
+                                },
                             },
                         }
                     }
